@@ -55,8 +55,10 @@ namespace nmtools::utl
         constexpr static_vector()
         {}
         constexpr static_vector(size_type n)
-            : size_(n)
-        {}
+        {
+            // same rule as resize(): a size beyond Capacity is refused
+            resize(n);
+        }
 
         template <typename...Ts>
         constexpr static_vector(T a, T b, Ts...ts)
